@@ -100,7 +100,19 @@ type IterV struct {
 	Pos      int
 }
 
-type ChanV struct{ Nil bool }
+// ChanV is a channel. The engine is single-threaded: a channel is a bounded FIFO; an operation that would
+// block forever in a sequential run (send on a full / receive on an empty channel outside a select with a
+// default) is reported as unsupported. C is nil for channels made while goroutines are cut (goAsNoop).
+type ChanV struct {
+	Nil bool
+	C   *Cell // V: chanState
+}
+
+type chanState struct {
+	items  []Value // immutable: replaced on update so that the cell journal can undo it
+	cap    int
+	closed bool
+}
 
 func isBigInt(t types.Type) bool {
 	n, ok := t.(*types.Named)
